@@ -272,3 +272,42 @@ Example shared_ghost_stale :
   v_dirty (getv h 1) = false /\ b_dirty (getb h (v_bc (getv h 1))) = false /\ ghost_fresh h 1 = false
   /\ solve_bcver false h 1 = Some 8.
 Proof. vm_compute. repeat split; reflexivity. Qed.
+
+(* ===== every consumer refreshes: after apply_BCs, solvePDE or solveExplicitPDE on variable i its ghost cells are computed from its
+   current interior values and the current content of its BoundaryConditions object -- in EVERY heap, shared objects included
+   (for the explicit solver this is the repair: it used to trust the dirty flags, which a shared object's other user can reset) ===== *)
+Lemma apply_bcs_ghost_fresh h i : i < nv h -> wf h -> ghost_fresh (apply_bcs h i) i = true.
+Proof.
+  intros Hi Hwf. unfold ghost_fresh. rewrite apply_bcs_var_same by assumption. cbn [v_ghost v_int v_bc fst snd].
+  destruct (apply_bcs_bver h i (v_bc (getv h i)) Hi Hwf) as [_ E]. rewrite E, !Nat.eqb_refl. reflexivity.
+Qed.
+Theorem explicit_refreshes_input uc h i ver : i < nv h -> wf h ->
+  ghost_fresh (step uc h (SolveExplicit i ver)) i = true /\ ghost_fresh (step uc h (SolveExplicit i ver)) (nv h) = true.
+Proof.
+  intros Hi Hwf. cbn [step].
+  set (h1 := apply_bcs h i).
+  set (w := mkVar ver (0, 0) None false (v_bc (getv h1 i)) false).
+  set (h2 := mkHeap (vars h1 ++ [w]) (bcs h1) (fresh h1)).
+  assert (Hn1 : nv h1 = nv h) by apply apply_bcs_nv.
+  assert (Hlen : length (vars h1) = nv h) by exact Hn1.
+  rewrite Hlen.
+  assert (E2 : getv h2 (nv h) = w).
+  { unfold getv, h2. cbn [vars]. rewrite app_nth2 by lia. rewrite Hlen, Nat.sub_diag. reflexivity. }
+  assert (E2i : getv h2 i = getv h1 i).
+  { unfold getv, h2. cbn [vars]. rewrite app_nth1 by lia. reflexivity. }
+  assert (Hwf1 : wf h1).
+  { intros j Hj. rewrite Hn1 in Hj. unfold h1. rewrite apply_bcs_vbc by assumption. rewrite apply_bcs_nb. apply Hwf. exact Hj. }
+  assert (Hi2 : nv h < nv h2) by (unfold h2; unfold nv in *; cbn [vars]; rewrite app_length; cbn [length]; lia).
+  assert (Hwf2 : wf h2).
+  { intros j Hj. unfold nv, h2 in Hj. cbn [vars] in Hj. rewrite app_length in Hj. cbn [length] in Hj. change (nb h2) with (nb h1).
+    destruct (Nat.eq_dec j (nv h)) as [->|Hne].
+    - rewrite E2. cbn [v_bc w]. unfold w. cbn [v_bc]. apply Hwf1. lia.
+    - unfold getv, h2. cbn [vars]. rewrite app_nth1 by lia. apply Hwf1. unfold nv. lia. }
+  split.
+  - (* the input variable: refreshed by the first apply_BCs, untouched by the second (same BC content) *)
+    unfold ghost_fresh. rewrite apply_bcs_var_other by lia. rewrite E2i.
+    destruct (apply_bcs_bver h2 (nv h) (v_bc (getv h1 i)) Hi2 Hwf2) as [_ G]. rewrite G.
+    change (getb h2 (v_bc (getv h1 i))) with (getb h1 (v_bc (getv h1 i))).
+    pose proof (apply_bcs_ghost_fresh h i Hi Hwf) as F. unfold ghost_fresh in F. fold h1 in F. exact F.
+  - apply apply_bcs_ghost_fresh; assumption.
+Qed.
